@@ -206,6 +206,11 @@ def check_property(pid, spec, tier='quick', seed=0, procs=None, write_baseline=F
                     known_hits.append((kf, item))
                 else:
                     violations.append((item, ''))
+            elif 'candidate only' in (r.get('backend') or ''):
+                # no solver produced a model of the full VC (only of its ground-instantiated weakening) and the
+                # candidate input does not fail on the real code: validity of the VC is unknown
+                undecided.append({'key': key, 'why': 'solver unknown; candidate input from ground instances does not fail on the real code: %s'
+                                  % str(verdict.get('detail', ''))[:200]})
             else:
                 # counter-model did not reproduce (or could not be concretised)
                 was_discharged = baseline is not None and key in baseline.get('discharged', [])
